@@ -3,6 +3,7 @@ package checks
 import (
 	"bytes"
 	"fmt"
+	"math"
 	"math/rand"
 	"os"
 	"os/exec"
@@ -131,6 +132,10 @@ func c15Value(r *rand.Rand, depth int) any {
 	case k < 3:
 		return r.Intn(100) - 50
 	case k < 5:
+		if r.Intn(6) == 0 {
+			// values that == cannot tell apart or does not equal to themselves
+			return []float64{math.Copysign(0, -1), 0, math.NaN(), math.Inf(-1)}[r.Intn(4)]
+		}
 		return float64(r.Intn(100)) / 4
 	case k < 7:
 		return []string{"", "s", "hello", "é"}[r.Intn(4)]
@@ -416,6 +421,14 @@ func checkStored(b bcl.Block, v reflect.Value) (problem string, skip bool) {
 				// an assignable destination of another (unnamed/named twin) type holds the same value under its own type
 				want = wv.Convert(fv.Type()).Interface()
 			}
+			if wf, isF := want.(float64); isF {
+				// bit for bit: -0.0 is not +0.0, and NaN is what was stored
+				gf, ok := got.(float64)
+				if !ok || math.Float64bits(gf) != math.Float64bits(wf) {
+					return fmt.Sprintf("field %q: struct holds %#v (%T), block has float %v (bits %016x): coerced or dropped", k, got, got, wf, math.Float64bits(wf)), false
+				}
+				continue
+			}
 			if !reflect.DeepEqual(got, want) {
 				return fmt.Sprintf("field %q: struct holds %#v (%T), block has %#v (%T): coerced or dropped", k, got, got, want, want), false
 			}
@@ -559,6 +572,16 @@ func c15Case(c *core.Ctx, i int64, r *rand.Rand) {
 		bd = bcl.StructBinding{Value: c15Block(r, 0)}
 	}
 	target := c15Targets(r, bd)
+	if r.Intn(25) == 0 {
+		// a pointer to a binding value also satisfies the Binding interface (value receivers); typed nil ones included
+		switch b := bd.(type) {
+		case bcl.StructBinding:
+			bd = []bcl.Binding{&b, (*bcl.StructBinding)(nil)}[r.Intn(2)]
+		case bcl.SliceBinding:
+			bd = []bcl.Binding{&b, (*bcl.SliceBinding)(nil)}[r.Intn(2)]
+		}
+		c.Count("pointer_bindings", 1)
+	}
 	// destinations that are already filled in: an interface holding a struct by value, a non-nil pointer
 	if pp, ok := target.(*prePopulated); ok {
 		pp.I = struct{ X int }{7}
@@ -631,7 +654,16 @@ func c15Case(c *core.Ctx, i int64, r *rand.Rand) {
 			c.Violation("bad-target-accepted", "Bind returned nil for a target that is not a non-nil pointer", det())
 			return
 		}
+		if pb, ok := bd.(*bcl.StructBinding); ok && pb != nil {
+			bd = *pb
+		}
+		if pb, ok := bd.(*bcl.SliceBinding); ok && pb != nil {
+			bd = *pb
+		}
 		switch b := bd.(type) {
+		case *bcl.StructBinding, *bcl.SliceBinding:
+			c.Violation("nil-binding-accepted", "Bind returned nil for a nil pointer binding", det())
+			return
 		case bcl.StructBinding:
 			if tv.Elem().Kind() != reflect.Struct {
 				c.Violation("bad-target-accepted", "struct binding accepted a "+tv.Elem().Kind().String()+" target", det())
@@ -690,7 +722,7 @@ func init() {
 		Level: "exploration",
 		Rule: "crash + post-condition monitor over generated (binding, target) pairs: bindings {nil, struct, slice (0-3 blocks, empty)} whose blocks hold int/float/string/bool/NIL values and nested blocks to depth 3, keys that collide after folding, named children; targets: a type derived from the block (by name or by tag), the same with fields retyped to one of 24 kinds (wider ints, pointers, interfaces, arrays, maps, slices, funcs, chans, structs, Block) or removed, the wrong kind for the binding, " +
 			"zoo types with embedded, unexported, pointer and interface fields, and 28 hostile non-struct targets (nil, non-pointers, typed nil pointers, pointers to every kind, slices of non-structs, named non-struct type matching the block type). Required: no panic; after nil, every field of every block and its non-empty name found unchanged (value and dynamic type) in the exported field the harness's own matching rule designates, nested blocks recursively; after an error a slice target deep-equals its snapshot. " +
-			"distinct = hash(binding, target type); non-trivial = Bind returned (nil or error) and the post-condition was examined Also: hand-built bindings nested 10..39 levels; destinations that are already filled in (interface holding a struct by value or pointer, non-nil pointers); zoo types with embedded pointers, an embedded struct in front of tagged fields, digit/underscore names; keys containing control bytes; blocks take a named target's type name in 3 of 4 cases; 1 field value in 12 is a Go value the VM never produces (sized ints, float32, complex, named int, slices, arrays, maps, pointers, *Block, []Block, chan, structs, and an unnamed struct type with Block's underlying type).",
+			"distinct = hash(binding, target type); non-trivial = Bind returned (nil or error) and the post-condition was examined Also: hand-built bindings nested 10..39 levels; destinations that are already filled in (interface holding a struct by value or pointer, non-nil pointers); zoo types with embedded pointers, an embedded struct in front of tagged fields, digit/underscore names; keys containing control bytes; blocks take a named target's type name in 3 of 4 cases; 1 field value in 12 is a Go value the VM never produces (sized ints, float32, complex, named int, slices, arrays, maps, pointers, *Block, []Block, chan, structs, and an unnamed struct type with Block's underlying type); float values -0.0, NaN and -Inf compared bit for bit; pointers to binding values, typed nil ones included.",
 		Assumptions:   []string{"when two keys of one block designate the same struct field only 'no panic' is claimed (DESIGN §6 C15)"},
 		MinNontrivial: 1000,
 		Run: func(c *core.Ctx) {
